@@ -24,6 +24,10 @@ def run(run):
         run.count_body(lc.body)
         check_lifecycle(run, lc)
         check_crate_wide(run, f)
+        # "killed=true iff the actor is ending because a kill() signal was consumed": the lifecycle takes *any* value received
+        # on the control channel for a kill, so the only thing ever sent on that channel must be kill()'s signal (C06 rule O6.1)
+        from rules import c06
+        c06.control_channel(run, f)
 
 
 def check_lifecycle(run, lc):
